@@ -343,6 +343,22 @@ def stream_lenient(rng):
             cases.append(pcase('O', 1, 0, t + b'\0', {'tags': ['lenient-forms', 'rnt']})); cases.append(pcase('P', 0, 0, t + b'\0', {'tags': ['lenient-forms']}))
     return cases
 
+def stream_number_soup(rng, n):
+    """runs of number bytes (0-9 + - e E .) of length 1..70 starting with '-' or a digit: valid and invalid spellings around the
+    63/64-byte boundary of parse_number's copy, top level and inside containers, with and without a terminator"""
+    cases = []; alph = b'0123456789+-eE.'
+    shapes = [b'-', b'--', b'-e', b'-.', b'-+', b'0e', b'1e+', b'1.e', b'-.-', b'1..', b'1e1e', b'00', b'-00', b'1-', b'1+1', b'.5', b'-e5']
+    for _ in range(n):
+        k = rng.choice([1, 2, 3, 5, 30, 62, 63, 64, 65, 66, 70, 100, 200])
+        head = rng.choice(shapes) if rng.random() < 0.6 else bytes([rng.choice(b'-0123456789')])
+        fill = rng.choice([b'0', b'9', b'-', b'e', b'.', None])
+        body = (fill * k) if fill else bytes(rng.choice(alph) for _ in range(k))
+        tok = (head + body)[:max(k, len(head))]
+        for text in (tok, b'[' + tok + b']', b'{"a":' + tok + b'}', b'[1,' + tok):
+            if rng.random() < 0.5: cases.append(pcase(rng.choice('LlW'), 0, len(text), text, {'tags': ['number-soup']}))
+            else: cases.append(pcase(rng.choice('OoP'), 0, 0, text + b'\0', {'tags': ['number-soup']}))
+    return cases
+
 def all_streams(ctx, salt):
     rng = random.Random(ctx['seed'] * 6700417 + salt)
     quick = ctx['tier'] == 'quick'
@@ -354,6 +370,7 @@ def all_streams(ctx, salt):
     cases += stream_soup(rng, 150 if quick else 5000, 3 if quick else 4)
     cases += stream_escapes(rng, quick)
     cases += stream_lenient(rng)
+    cases += stream_number_soup(rng, 60 if quick else 1500)
     cases += stream_depth(rng)
     return cases
 
